@@ -241,7 +241,7 @@ async def recovery_tail(gen, w, run, out):
     delivered = False
     base = None
     deadline_conns = 0
-    while sent <= MAX_PROBE_BYTES + 3 * 64:
+    while sent <= MAX_PROBE_BYTES + 4096:
         c = net.current()
         if c is None:
             # the client reset the connection (desynchronised stream): wait for it
@@ -519,7 +519,7 @@ def run_api(case):
             if isinstance(got, (int, float)) and abs(got - want) < 1e-9:
                 ok = True
                 break
-            if sent > MAX_PROBE_BYTES + 200:
+            if sent > MAX_PROBE_BYTES + 4096:
                 break
         out["probe_bytes"] = sent
         if not ok:
